@@ -197,7 +197,9 @@ func lower(s string) string {
 // becomes current and both reconcile fault-free (old first). The deactivated
 // revision must end up controlling nothing, whatever part of its activation
 // had happened, and the successor must hold everything it ships. A second row
-// loses status.objectRefs of a fully activated revision instead (backup/restore).
+// loses status.objectRefs of a fully activated revision instead (backup/restore);
+// the "manual" rows let the revision reconcile as an inactive one before it is
+// activated, so that its status already lists (not yet deployed) objects.
 func TestVerifC16PinnedDeactivationAfterPartialActivation(t *testing.T) {
 	rec := verifkit.New(t, "C16", "pinned rows")
 	for _, fl := range flavours {
@@ -209,27 +211,37 @@ func TestVerifC16PinnedDeactivationAfterPartialActivation(t *testing.T) {
 			if n < 8 {
 				t.Fatalf("harness: the activating reconcile issued only %d calls", n)
 			}
-			for k := -1; k < n; k++ {
-				for _, f := range faultKinds {
-					rec.Eval()
-					h := pinnedWorld(t, fl)
-					h.switchTo("alpha-r1")
-					if k < 0 {
+			for _, manual := range []bool{false, true} {
+				for k := -1; k < n; k++ {
+					for _, f := range faultKinds {
+						rec.Eval()
+						h := pinnedWorld(t, fl)
+						if manual {
+							// revisionActivationPolicy Manual: the revision is reconciled while
+							// inactive first (its status then lists objects that are not deployed yet).
+							h.createRevision("alpha-r1", false)
+							h.logf("create alpha-r1 inactive")
+							h.step(rec, "alpha-r1", nil)
+							h.step(rec, "alpha-r1", nil)
+						}
+						h.switchTo("alpha-r1")
+						if k < 0 {
+							h.step(rec, "alpha-r1", nil)
+							h.wipeStatus("alpha-r1")
+						} else {
+							h.step(rec, "alpha-r1", map[int]verifsim.Fault{k: f})
+						}
+						h.switchTo("alpha-r2")
 						h.step(rec, "alpha-r1", nil)
-						h.wipeStatus("alpha-r1")
-					} else {
-						h.step(rec, "alpha-r1", map[int]verifsim.Fault{k: f})
-					}
-					h.switchTo("alpha-r2")
-					h.step(rec, "alpha-r1", nil)
-					h.step(rec, "alpha-r1", nil)
-					h.step(rec, "alpha-r2", nil)
-					for i, key := range h.planKeys(h.revs["alpha-r2"]) {
-						_ = i
-						h.mustBe(key, "alpha-r2", "alpha")
-					}
-					if k < 0 {
-						break
+						h.step(rec, "alpha-r1", nil)
+						h.step(rec, "alpha-r2", nil)
+						for i, key := range h.planKeys(h.revs["alpha-r2"]) {
+							_ = i
+							h.mustBe(key, "alpha-r2", "alpha")
+						}
+						if k < 0 {
+							break
+						}
 					}
 				}
 			}
